@@ -115,11 +115,55 @@ func encodeConf(conf yobj) (data []byte, err error) {
 	again, err := marshal(readBack)
 	if err != nil {
 		return nil, fmt.Errorf("reading back: %w", err)
-	} else if !bytes.Equal(again, data) {
+	} else if !bytes.Equal(again, data) || !sameStrings(conf, readBack) {
 		return nil, errors.Error("reading back: document has changed")
 	}
 
 	return data, nil
+}
+
+// sameStrings returns true if all strings of written, the keys of its objects
+// included, are the same in read, which is written as it has been read back.
+// The written form of a string may be stable and still wrong:  the encoder
+// writes a line break followed by an indented line in a way that loses the
+// line break.  Objects with keys that aren't strings are written as objects of
+// the other kind, so they aren't the same either.
+func sameStrings(written, read any) (ok bool) {
+	switch written := written.(type) {
+	case string:
+		return written == read
+	case yobj:
+		readObj, isObj := read.(yobj)
+		if !isObj || len(readObj) != len(written) {
+			return false
+		}
+
+		for k, v := range written {
+			readVal, has := readObj[k]
+			if !has || !sameStrings(v, readVal) {
+				return false
+			}
+		}
+
+		return true
+	case yarr:
+		readArr, isArr := read.(yarr)
+		if !isArr || len(readArr) != len(written) {
+			return false
+		}
+
+		for i, v := range written {
+			if !sameStrings(v, readArr[i]) {
+				return false
+			}
+		}
+
+		return true
+	case map[any]any:
+		return false
+	default:
+		return true
+	}
 }
 
 // validateVersion validates the current and desired schema versions.
